@@ -831,6 +831,8 @@ def fit_eligible(spec):
     for _, n in walk_spec(spec["model"]):
         if n["t"] in ("str", "none", "bool", "int"):
             return False
+        if n["t"] == "model" and n.get("extras"):       # extra attributes are handed to the constructor: no instance
+            return False
     return spec["search"]["cls"] in ("LBFGS", "BFGS", "DynestyStatic")
 
 
